@@ -10,9 +10,9 @@ package regs
 import (
 	"context"
 	"fmt"
+	"io/fs"
 	"net"
 	"os"
-	"io/fs"
 	"path/filepath"
 	"sort"
 	"strings"
@@ -116,8 +116,8 @@ func genSock(t *rapid.T) C17Case {
 	if rapid.Bool().Draw(t, "ttrpc") {
 		toks = append(toks, optTTRPC)
 	}
-	// half of the socket cases disable external connections, a third of those twice
-	switch rapid.SampledFrom([]int{0, 1, 0, 1, 2, 0}).Draw(t, "disabled") {
+	// three in seven socket cases disable external connections, a third of those twice
+	switch rapid.SampledFrom([]int{0, 1, 0, 0, 1, 2, 0}).Draw(t, "disabled") {
 	case 1:
 		toks = append(toks, optDisabled)
 	case 2:
